@@ -325,6 +325,8 @@ pub fn run_docs(case: &Value, _seed: u64) -> Outcome {
         // C09 / C02 on the same text, with the machine's tree as drift oracle
         observe_rel(&mut o, case, &text, allow, &feats, true);
         if !allow { observe_rel(&mut o, &Value::Null, &text, true, &feats, false); }
+        // ... and with every digit run stretched (epochs and version parts beyond u32 / u64): still one IDENT each
+        if m == 0 { let big: String = text.chars().map(|c| if c.is_ascii_digit() { c.to_string().repeat(12) } else { c.to_string() }).collect(); if big != text { observe_rel(&mut o, &Value::Null, &big, allow, &feats, false); } }
         // ---- C10, lossless reader
         match guarded("Relations::parse_relaxed", || Relations::parse_relaxed(&text, true)) {
             Err(_) => {}
